@@ -297,6 +297,10 @@ class Interp:
             if not isinstance(a, Sym) and not isinstance(b, Sym):
                 return bytes(a) == bytes(b)
             return bytes_term(a) == bytes_term(b)
+        if isinstance(a, dict) and isinstance(b, dict):
+            if list(a.keys()) != list(b.keys()) and set(a.keys()) != set(b.keys()):
+                return False
+            return _and([self.eq(a[k], b[k]) for k in a])
         if isinstance(a, (tuple, list)) and isinstance(b, (tuple, list)):
             if type(a) is not type(b) and not (isinstance(a, tuple) == isinstance(b, tuple)):
                 return False
